@@ -275,15 +275,63 @@ pub fn run_case(case: &mut Case) {
                 }
             }
             if !attributed {
-                case.rep.violation(
-                    "respell:interaction",
-                    "respelling",
-                    case.index,
-                    case_json(&b.spec, &rline.argv)
-                        .set("canonical_argv", show_argv(&cline.argv))
-                        .set("canonical_outcome", o_canon.show())
-                        .set("respelled_outcome", o_re.show()),
-                );
+                // no single spelling flips the outcome. Put the chunks that carry a feature which
+                // by itself is sufficient to mis-read the item (the known findings) back into
+                // their canonical spelling: if the rest of the respelling then agrees with the
+                // canonical line, the divergence is theirs; otherwise it is an interaction.
+                const SUFFICIENT: &[&str] = &[
+                    "hidden-short",
+                    "short-joined-non-utf8-value",
+                    "cluster-joined-value-contains-eq",
+                ];
+                let mut cleaned: Vec<Chunk> = Vec::new();
+                let mut blamed: Vec<String> = Vec::new();
+                for c in &re {
+                    let f = chunk_features(&units, c, &b.spec);
+                    if SUFFICIENT.contains(&f.as_str()) {
+                        blamed.push(f);
+                        cleaned.extend(
+                            canon
+                                .iter()
+                                .filter(|k| k.lo >= c.lo && k.hi <= c.hi)
+                                .cloned(),
+                        );
+                    } else {
+                        cleaned.push(c.clone());
+                    }
+                }
+                let mut explained = false;
+                if !blamed.is_empty() {
+                    let kline = assemble(&units, &cleaned);
+                    let (o_clean, _) = b.run(case, &kline.argv, "respelled-without-known-spellings");
+                    explained = same(&o_canon, &o_clean);
+                }
+                if explained {
+                    blamed.sort();
+                    blamed.dedup();
+                    for f in blamed {
+                        case.rep.violation(
+                            &format!("respell:{}", f),
+                            "respelling",
+                            case.index,
+                            case_json(&b.spec, &rline.argv)
+                                .set("canonical_argv", show_argv(&cline.argv))
+                                .set("canonical_outcome", o_canon.show())
+                                .set("respelled_outcome", o_re.show())
+                                .set("note", "combination of spellings; agrees once these chunks are spelled canonically"),
+                        );
+                    }
+                } else {
+                    case.rep.violation(
+                        "respell:interaction",
+                        "respelling",
+                        case.index,
+                        case_json(&b.spec, &rline.argv)
+                            .set("canonical_argv", show_argv(&cline.argv))
+                            .set("canonical_outcome", o_canon.show())
+                            .set("respelled_outcome", o_re.show()),
+                    );
+                }
             }
         }
     }
